@@ -2024,7 +2024,7 @@ Proof.
     fold tail in F2.
     assert (Hskip : mem_str (env_name ng) skip = false).
     { destruct (mem_str (env_name ng) skip) eqn:E; [|reflexivity].
-      apply Hsk in E. congruence. }
+      apply Hsk in E. rewrite W6 in E. discriminate E. }
     exists (S (Nat.max f1 f2)). intros f Hf. destruct f as [|f]; [lia|].
     rewrite flat_env. rewrite <- !app_comm_cons.
     assert (E1 := F1 f ltac:(lia)). cbv beta in E1.
@@ -2168,4 +2168,235 @@ Proof.
   intro Hwf. unfold parse_tokens, fuel_for.
   rewrite (PP_tex_loop (all_skip user) ds _ _ _ strict [] (sub_skip_refl _) Hwf) by lia.
   reflexivity.
+Qed.
+
+(* ====================================================================== *)
+(* print o parse o print: the expected tree prints as the tokens          *)
+(* ====================================================================== *)
+
+(* no spacer between a command and its argument groups, unpadded names *)
+Fixpoint printable (d : doc) : bool :=
+  match d with
+  | DLeaf _ => true
+  | DGroup _ b _ => forallb printable b
+  | DCmd _ n args => str_eqb (strip (ttext n)) (ttext n) && forallb printable_arg args
+  | DMath _ _ b _ => forallb printable b
+  | DEnv _ _ ng xargs body _ _ ng2 =>
+    printable_arg ng && forallb printable_arg xargs && printable_arg ng2 &&
+    str_eqb (strip (arg_string (tree_arg ng))) (arg_string (tree_arg ng)) &&
+    forallb printable body
+  | DItem _ _ args body => forallb printable_arg args && forallb printable body
+  end
+with printable_arg (a : arg) : bool :=
+  match a with
+  | Arg sp _ _ b _ => match sp with None => true | Some _ => false end && forallb printable b
+  end.
+
+Section Print.
+Variable SK : list str.
+
+Definition estr_d (d : doc) : Prop := forall mm rest,
+  wf SK mm d = true -> follows_ok SK d rest = true ->
+  printable d = true -> Forall tok_wf (flat d) ->
+  estr (tree d) = texts (flat d).
+Definition estr_a (a : arg) : Prop := forall mm,
+  wf_arg SK mm a = true -> printable_arg a = true -> Forall tok_wf (flat_arg a) ->
+  estr (tree_arg a) = texts (flat_arg a).
+
+Lemma texts_cons t l : texts (t :: l) = ttext t ++ texts l.
+Proof. reflexivity. Qed.
+Lemma texts_one t : texts [t] = ttext t.
+Proof. unfold texts. simpl. apply app_nil_r. Qed.
+
+Lemma estr_body mm x b : Forall estr_d b -> forall r,
+  wf_seq SK mm x b r = true -> forallb printable b = true ->
+  Forall tok_wf (flat_list b) ->
+  concat (map estr (map tree b)) = texts (flat_list b).
+Proof.
+  intros Hb r. induction Hb as [|d b Hd _ IH]; intros Hwf Hp Ht; [reflexivity|].
+  destruct (wf_seq_cons_parts _ _ _ _ _ _ Hwf) as (_ & _ & H2 & H3 & H4).
+  cbn [forallb] in Hp. apply andb_true_iff in Hp. destruct Hp as [Hp1 Hp2].
+  rewrite flat_list_cons in Ht |- *. apply Forall_app in Ht. destruct Ht as [Ht1 Ht2].
+  cbn [map concat]. rewrite texts_app, (Hd mm _ H2 H3 Hp1 Ht1), (IH H4 Hp2 Ht2). reflexivity.
+Qed.
+
+Lemma estr_args mm args : Forall estr_a args ->
+  forallb (wf_arg SK mm) args = true -> forallb printable_arg args = true ->
+  Forall tok_wf (flat_args args) ->
+  concat (map estr (map tree_arg args)) = texts (flat_args args).
+Proof.
+  induction 1 as [|a args Ha _ IH]; intros H4 Hp Ta; [reflexivity|].
+  cbn [forallb] in H4, Hp.
+  apply andb_true_iff in H4. destruct H4 as [W1 W2].
+  apply andb_true_iff in Hp. destruct Hp as [P1 P2].
+  rewrite flat_args_cons in Ta |- *. apply Forall_app in Ta. destruct Ta as [T1 T2].
+  cbn [map concat]. rewrite texts_app, (Ha mm W1 P1 T1), (IH W2 P2 T2). reflexivity.
+Qed.
+
+Lemma tok_wf_group_begin o k :
+  tok_wf o -> group_tok_begin k = Some (tcat o) -> ttext o = group_begin k.
+Proof. intros (H & _) E. apply H. exact E. Qed.
+Lemma tok_wf_group_end c k :
+  tok_wf c -> is_group_end k c = true -> ttext c = group_end k.
+Proof. intros (_ & H & _) E. apply H. apply is_group_end_tok. exact E. Qed.
+Lemma tok_wf_math_begin o k :
+  tok_wf o -> math_tok_begin k = Some (tcat o) -> ttext o = math_begin k.
+Proof. intros (_ & _ & H & _) E. apply H. exact E. Qed.
+Lemma tok_wf_math_end c k :
+  tok_wf c -> is_math_end k c = true -> ttext c = math_end k.
+Proof. intros (_ & _ & _ & H & _) E. apply H. apply is_math_end_tok. exact E. Qed.
+Lemma tok_wf_escape e : tok_wf e -> is_tc TEscape e = true -> ttext e = [backslash].
+Proof. intros (_ & _ & _ & _ & H) E. apply H. apply is_tc_true. exact E. Qed.
+
+Lemma estr_arg_group sp k o b c : Forall estr_d b -> estr_a (Arg sp k o b c).
+Proof.
+  intros Hb mm Hwf Hp Ht.
+  destruct (wf_arg_parts _ _ _ _ _ _ _ Hwf) as (W1 & W2 & W3 & W4).
+  apply opens_group_kind_spec in W2. destruct W2 as (_ & Hk & _).
+  cbn [printable_arg] in Hp. apply andb_true_iff in Hp. destruct Hp as [Hsp Hp].
+  destruct sp as [s|]; [discriminate Hsp|].
+  rewrite flat_arg_eq in Ht |- *. cbn [opt_tok app] in Ht |- *.
+  inversion Ht as [|? ? To Ht']; subst. apply Forall_app in Ht'. destruct Ht' as [Tb Tc].
+  inversion Tc as [|? ? Tc' _]; subst.
+  cbn [tree_arg estr]. rewrite texts_cons, texts_app, texts_one.
+  rewrite (estr_body mm (CGroup k) b Hb [c] W4 Hp Tb).
+  rewrite (tok_wf_group_begin o k To Hk), (tok_wf_group_end c k Tc' W3).
+  reflexivity.
+Qed.
+
+(* a brace argument prints as  { <its string> } *)
+Lemma estr_brace_arg a : is_brace_arg a = true ->
+  estr (tree_arg a) = [123%N] ++ arg_string (tree_arg a) ++ [125%N].
+Proof.
+  destruct a as [sp k o b c]. unfold is_brace_arg. cbn [arg_kind]. intro H.
+  apply groupkind_eqb_eq in H. subst k. reflexivity.
+Qed.
+
+Theorem estr_tree_all : forall d, estr_d d.
+Proof.
+  apply (doc_ind' estr_d estr_a).
+  - intros t mm rest _ _ _ _. cbn [tree estr flat]. rewrite texts_one. reflexivity.
+  - intros o b c Hb mm rest Hwf _ Hp Ht.
+    assert (Wa : wf_arg SK false (Arg None GBrace o b c) = true).
+    { rewrite wf_group in Hwf. rewrite wf_arg_eq.
+      apply andb_true_iff in Hwf. destruct Hwf as [Hwf H3].
+      apply andb_true_iff in Hwf. destruct Hwf as [H1 H2].
+      rewrite H2, H3. unfold opens_group_kind.
+      replace (group_tok_begin GBrace) with (Some TGroupBegin) by (vm_compute; reflexivity).
+      rewrite H1. reflexivity. }
+    exact (estr_arg_group None GBrace o b c Hb false Wa Hp Ht).
+  - intros e n args Hargs mm rest Hwf _ Hp Ht. rewrite wf_cmd in Hwf.
+    apply andb_true_iff in Hwf. destruct Hwf as [Hwf H4].
+    apply andb_true_iff in Hwf. destruct Hwf as [Hwf _].
+    apply andb_true_iff in Hwf. destruct Hwf as [H1 _].
+    cbn [printable] in Hp. apply andb_true_iff in Hp. destruct Hp as [Hn Hp].
+    apply str_eqb_eq in Hn.
+    rewrite flat_cmd in Ht |- *.
+    inversion Ht as [|? ? Te Ht']; subst. inversion Ht' as [|? ? _ Ta]; subst.
+    cbn [tree estr]. rewrite !texts_cons, (tok_wf_escape e Te H1), Hn.
+    cbn [app]. f_equal. f_equal. rewrite app_nil_r.
+    exact (estr_args mm args Hargs H4 Hp Ta).
+  - intros k o b c Hb mm rest Hwf _ Hp Ht. rewrite wf_math in Hwf.
+    apply andb_true_iff in Hwf. destruct Hwf as [Hwf H3].
+    apply andb_true_iff in Hwf. destruct Hwf as [H1 H2].
+    apply opens_math_kind_spec in H1. destruct H1 as [_ Hk].
+    cbn [printable] in Hp.
+    rewrite flat_math in Ht |- *.
+    inversion Ht as [|? ? To Ht']; subst. apply Forall_app in Ht'. destruct Ht' as [Tb Tc].
+    inversion Tc as [|? ? Tc' _]; subst.
+    cbn [tree estr]. rewrite texts_cons, texts_app, texts_one.
+    rewrite (estr_body true (CMath k) b Hb [c] H3 Hp Tb).
+    rewrite (tok_wf_math_begin o k To Hk), (tok_wf_math_end c k Tc' H2).
+    reflexivity.
+  - (* environment *)
+    intros e b ng xargs body e2 en ng2 Hng Hxargs Hbody Hng2 mm rest Hwf _ Hp Ht.
+    rewrite wf_env in Hwf.
+    apply andb_true_iff in Hwf. destruct Hwf as [Hwf W13].
+    apply andb_true_iff in Hwf. destruct Hwf as [Hwf W12].
+    apply andb_true_iff in Hwf. destruct Hwf as [Hwf W11].
+    apply andb_true_iff in Hwf. destruct Hwf as [Hwf W10].
+    apply andb_true_iff in Hwf. destruct Hwf as [Hwf W9].
+    apply andb_true_iff in Hwf. destruct Hwf as [Hwf W8].
+    apply andb_true_iff in Hwf. destruct Hwf as [Hwf W7].
+    apply andb_true_iff in Hwf. destruct Hwf as [Hwf W7b].
+    apply andb_true_iff in Hwf. destruct Hwf as [Hwf W7a].
+    apply andb_true_iff in Hwf. destruct Hwf as [Hwf W6].
+    apply andb_true_iff in Hwf. destruct Hwf as [Hwf W5].
+    apply andb_true_iff in Hwf. destruct Hwf as [Hwf W4].
+    apply andb_true_iff in Hwf. destruct Hwf as [Hwf W3].
+    apply andb_true_iff in Hwf. destruct Hwf as [W1 W2].
+    apply str_eqb_eq in W2, W10, W13.
+    cbn [printable] in Hp.
+    apply andb_true_iff in Hp. destruct Hp as [Hp P4].
+    apply andb_true_iff in Hp. destruct Hp as [Hp P3].
+    apply andb_true_iff in Hp. destruct Hp as [Hp P2].
+    apply andb_true_iff in Hp. destruct Hp as [P1 P1x].
+    apply str_eqb_eq in P3.
+    rewrite flat_env in Ht |- *. rewrite flat_args_cons in Ht |- *.
+    inversion Ht as [|? ? Te Ht1]; subst. inversion Ht1 as [|? ? _ Ht2]; subst.
+    apply Forall_app in Ht2. destruct Ht2 as [Targs Ht3].
+    apply Forall_app in Targs. destruct Targs as [Tng Txargs].
+    apply Forall_app in Ht3. destruct Ht3 as [Tbody Ht4].
+    inversion Ht4 as [|? ? Te2 Ht5]; subst. inversion Ht5 as [|? ? _ Tng2]; subst.
+    rewrite !texts_cons, !texts_app, !texts_cons.
+    rewrite <- (Hng mm W3 P1 Tng), <- (Hng2 mm W11 P2 Tng2).
+    rewrite <- (estr_args mm xargs Hxargs W7b P1x Txargs).
+    rewrite <- (estr_body mm CEnv body Hbody [e2; en] W8 P4 Tbody).
+    rewrite (estr_brace_arg ng W4), (estr_brace_arg ng2 W12).
+    rewrite (tok_wf_escape e Te W1), (tok_wf_escape e2 Te2 W9), W2, W10, W13.
+    unfold env_name. rewrite P3.
+    cbn [tree estr]. rewrite !P3. unfold env_begin, env_end.
+    change s_begin_open with ([backslash] ++ s_begin ++ [123%N]).
+    change s_end_open with ([backslash] ++ s_end ++ [123%N]).
+    change s_close with [125%N].
+    rewrite <- !app_assoc. cbn [app]. reflexivity.
+  - (* item *)
+    intros e n args body Hargs Hbody mm rest Hwf Hfol Hp Ht.
+    rewrite wf_item in Hwf.
+    apply andb_true_iff in Hwf. destruct Hwf as [Hwf W5].
+    apply andb_true_iff in Hwf. destruct Hwf as [Hwf _].
+    apply andb_true_iff in Hwf. destruct Hwf as [Hwf W3].
+    apply andb_true_iff in Hwf. destruct Hwf as [_ W2].
+    apply str_eqb_eq in W3.
+    rewrite follows_ok_item in Hfol.
+    apply andb_true_iff in Hfol. destruct Hfol as [Hfol _].
+    apply andb_true_iff in Hfol. destruct Hfol as [_ F2].
+    cbn [printable] in Hp. apply andb_true_iff in Hp. destruct Hp as [P1 P2].
+    rewrite flat_item in Ht |- *.
+    inversion Ht as [|? ? Te Ht1]; subst. inversion Ht1 as [|? ? _ Ht2]; subst.
+    apply Forall_app in Ht2. destruct Ht2 as [Ta Tb].
+    cbn [tree estr]. rewrite !texts_cons, texts_app, (tok_wf_escape e Te W2), W3.
+    rewrite (estr_args mm args Hargs W5 P1 Ta).
+    rewrite (estr_body false CItem body Hbody rest F2 P2 Tb).
+    replace (strip s_item) with s_item by (vm_compute; reflexivity).
+    reflexivity.
+  - intros sp k o b c Hb. apply estr_arg_group. exact Hb.
+Qed.
+
+Theorem estr_tree mm d rest :
+  wf SK mm d = true -> follows_ok SK d rest = true ->
+  printable d = true -> Forall tok_wf (flat d) ->
+  estr (tree d) = texts (flat d).
+Proof. apply estr_tree_all. Qed.
+
+Theorem estr_tree_list mm x ds r :
+  wf_seq SK mm x ds r = true -> forallb printable ds = true -> Forall tok_wf (flat_list ds) ->
+  estr (ERoot (map tree ds)) = texts (flat_list ds).
+Proof.
+  intros Hwf Hp Ht. cbn [estr].
+  assert (Hb : Forall estr_d ds) by (apply Forall_forall; intros d _; apply estr_tree_all).
+  exact (estr_body mm x ds Hb r Hwf Hp Ht).
+Qed.
+
+End Print.
+
+(* print o parse o print *)
+Theorem PP_print_parse_print ds strict user :
+  wf_seq (all_skip user) false CTop ds [] = true -> forallb printable ds = true ->
+  Forall tok_wf (flat_list ds) ->
+  exists t, parse_tokens (flat_list ds) strict user = Ok t /\ estr t = texts (flat_list ds).
+Proof.
+  intros Hwf Hp Ht. exists (ERoot (map tree ds)). split.
+  - apply PP_parse_tokens. exact Hwf.
+  - eapply estr_tree_list; eassumption.
 Qed.
